@@ -88,6 +88,14 @@ def rule_tie(chk: Check, view: AsyncView, rid: str):
     for mode in ("LATEST", "BUFFER"):
         if mode not in seen_modes:
             chk.violation(rid, f"{mode} branch", f"no selection loop is active for jitter={mode}", chk.loc(fi))
+    rule_future_guard(chk, view, rid)
+
+
+def rule_future_guard(chk: Check, view: AsyncView, rid: str):
+    key = "conn.push_expected_nonblocking"
+    r = view.results[key]
+    fi = view.fi(key)
+    pop = one(queue_ops(r, "q_ts_next_step", "popleft"), "popleft on q_ts_next_step")
     # future guard (simulated clock): some queued receive time strictly after the step start
     sim = {IN_CLOCK: SIMULATED}
     g = T.subst(pop.guard, sim)
